@@ -1,4 +1,5 @@
-(* Lemmas about Model/TaskGraph.v: basic facts (state tuples, association lists). *)
+(* Lemmas about Model/TaskGraph.v: basic facts (membership, association lists, Task.cancel,
+   state tuples, is_ready_to_run). *)
 From Coq Require Import ZArith Bool List Lia ZifyBool.
 Import ListNotations.
 From Verif Require Import Model.Val Gen.Src_Task Gen.Src_TaskGraph Model.TaskGraph.
@@ -6,6 +7,14 @@ Open Scope Z_scope.
 
 Lemma task_state_eqb_eq : forall a b, task_state_eqb a b = true <-> a = b.
 Proof. intros a b; destruct a, b; cbv; split; intro H; try reflexivity; try discriminate. Qed.
+Lemma task_state_eqb_neq : forall a b, task_state_eqb a b = false <-> a <> b.
+Proof.
+  intros a b. split.
+  - intros H E. apply task_state_eqb_eq in E. congruence.
+  - intros H. destruct (task_state_eqb a b) eqn:E; [apply task_state_eqb_eq in E; contradiction | reflexivity].
+Qed.
+Lemma task_state_eq_dec : forall a b : task_state, {a = b} + {a <> b}.
+Proof. decide equality. Qed.
 
 (* is_ready_to_run: a join is ready as soon as ONE parent is complete, a regular task when ALL are *)
 Lemma ready_spec : forall terminal sts s,
@@ -18,4 +27,132 @@ Proof.
   destruct terminal.
   - rewrite existsb_exists. tauto.
   - rewrite forallb_forall. tauto.
+Qed.
+
+(* ---------- membership ---------- *)
+Lemma zmem_In : forall x l, zmem x l = true <-> In x l.
+Proof.
+  intros x l; induction l as [|y l IH]; cbn [zmem In].
+  - split; [discriminate | tauto].
+  - rewrite orb_true_iff, IH, Z.eqb_eq. tauto.
+Qed.
+Lemma zmem_not_In : forall x l, zmem x l = false <-> ~ In x l.
+Proof.
+  intros x l. rewrite <- zmem_In. destruct (zmem x l); split; intro H; congruence.
+Qed.
+Lemma znodup_NoDup : forall l, znodup l = true <-> NoDup l.
+Proof.
+  induction l as [|x l IH]; cbn [znodup].
+  - split; [constructor | reflexivity].
+  - rewrite andb_true_iff, negb_true_iff, zmem_not_In, IH. split.
+    + intros [H1 H2]; constructor; assumption.
+    + intros H; inversion H; subst; split; assumption.
+Qed.
+
+(* ---------- association lists ---------- *)
+Lemma al_get_In_keys : forall A k (l : list (Z * A)), al_get k l <> None <-> In k (map fst l).
+Proof.
+  intros A k l; induction l as [|[k' v] l IH]; cbn [al_get map fst In].
+  - split; [congruence | tauto].
+  - destruct (k' =? k) eqn:E.
+    + split; [intros _; left; lia | congruence].
+    + rewrite IH. split; [tauto | intros [H|H]; [lia | exact H]].
+Qed.
+Lemma al_get_set_same : forall A k (v : A) l, al_get k l <> None -> al_get k (al_set k v l) = Some v.
+Proof.
+  intros A k v l; induction l as [|[k' v'] l IH]; cbn [al_get al_set]; intro H.
+  - congruence.
+  - destruct (k' =? k) eqn:E; cbn [al_get]; rewrite E; [reflexivity | apply IH; exact H].
+Qed.
+Lemma al_get_set_other : forall A k k' (v : A) l, k' <> k -> al_get k' (al_set k v l) = al_get k' l.
+Proof.
+  intros A k k' v l Hne; induction l as [|[k2 v2] l IH]; cbn [al_get al_set].
+  - reflexivity.
+  - destruct (k2 =? k) eqn:E; cbn [al_get].
+    + assert (k2 =? k' = false) as -> by lia. reflexivity.
+    + rewrite IH. reflexivity.
+Qed.
+Lemma al_set_keys : forall A k (v : A) l, map fst (al_set k v l) = map fst l.
+Proof.
+  intros A k v l; induction l as [|[k2 v2] l IH]; cbn [al_set map fst]; [reflexivity|].
+  destruct (k2 =? k); cbn [map fst]; [reflexivity | rewrite IH; reflexivity].
+Qed.
+Lemma al_get_In : forall A k (v : A) l, al_get k l = Some v -> In (k, v) l.
+Proof.
+  intros A k v l; induction l as [|[k2 v2] l IH]; cbn [al_get In]; [congruence|].
+  destruct (k2 =? k) eqn:E; intro H.
+  - inversion H; subst. left. f_equal. lia.
+  - right; apply IH; exact H.
+Qed.
+
+(* ---------- tg_set ---------- *)
+Lemma tg_task_set_same : forall g n tk, tg_get g n <> None -> tg_task (tg_set g n tk) n = tk.
+Proof.
+  intros g n tk H. unfold tg_task, tg_get, tg_set; cbn [g_tasks].
+  rewrite al_get_set_same; [reflexivity | exact H].
+Qed.
+Lemma tg_task_set_other : forall g n m tk, m <> n -> tg_task (tg_set g n tk) m = tg_task g m.
+Proof.
+  intros g n m tk H. unfold tg_task, tg_get, tg_set; cbn [g_tasks].
+  rewrite al_get_set_other; [reflexivity | exact H].
+Qed.
+Lemma tg_get_set_keys : forall g n tk m, tg_get (tg_set g n tk) m <> None <-> tg_get g m <> None.
+Proof.
+  intros g n tk m. unfold tg_get, tg_set; cbn [g_tasks]. rewrite !al_get_In_keys, al_set_keys. tauto.
+Qed.
+
+(* ---------- parents / children ---------- *)
+Lemma al_get_NoDup_In : forall A k (v : A) l, NoDup (map fst l) -> In (k, v) l -> al_get k l = Some v.
+Proof.
+  intros A k v l; induction l as [|[k2 v2] l IH]; cbn [map fst al_get In]; intros ND H; [contradiction|].
+  inversion ND as [|x xs Hx ND']; subst.
+  destruct H as [H|H].
+  - inversion H; subst. rewrite Z.eqb_refl. reflexivity.
+  - destruct (k2 =? k) eqn:E.
+    + exfalso. apply Hx. assert (k2 = k) by lia. subst. change k with (fst (k, v)). apply in_map. exact H.
+    + apply IH; assumption.
+Qed.
+
+Lemma parents_children : forall g p c, NoDup (tg_nodes g) ->
+  (In p (tg_parents g c) <-> In c (tg_children g p)).
+Proof.
+  intros g p c ND. unfold tg_parents, tg_children, tg_nodes in *.
+  rewrite in_map_iff. split.
+  - intros [[k cs] [Hk Hin]]. cbn [fst] in Hk; subst k.
+    apply filter_In in Hin. destruct Hin as [Hin Hm]. cbn [snd] in Hm.
+    rewrite (al_get_NoDup_In _ _ _ _ ND Hin). apply zmem_In; exact Hm.
+  - intros H. destruct (al_get p (g_adj g)) as [cs|] eqn:E; [|contradiction].
+    exists (p, cs). split; [reflexivity|]. apply filter_In. split.
+    + apply al_get_In; exact E.
+    + cbn [snd]. apply zmem_In; exact H.
+Qed.
+
+Lemma children_node : forall g p c, In c (tg_children g p) -> In p (tg_nodes g).
+Proof.
+  intros g p c H. unfold tg_children in H. destruct (al_get p (g_adj g)) eqn:E; [|contradiction].
+  unfold tg_nodes. apply al_get_In_keys. congruence.
+Qed.
+
+(* ---------- Task.cancel ---------- *)
+Definition cancellable (s : task_state) : Prop := s = TS_VIRTUAL \/ s = TS_RELEASED \/ s = TS_SCHEDULED.
+
+Lemma cancel_task_ok : forall tk time tk', cancel_task tk time = Ok tk' ->
+  cancellable (t_state (tt_dyn tk)) /\ t_state (tt_dyn tk') = TS_CANCELLED /\ tt_prob tk' = 0 /\
+  t_remaining_time (tt_dyn tk') = 0 /\ tt_terminal tk' = tt_terminal tk /\
+  tt_conditional tk' = tt_conditional tk /\ tt_runtimes tk' = tt_runtimes tk.
+Proof.
+  intros [d p te co es rt] time tk'. destruct d as [s ps rel st co' rem ls ca dl].
+  unfold cancel_task, task_cancel, task_update_remaining_time, task_is_complete, cancellable, with_prob, with_dyn.
+  cbn [tt_dyn t_state].
+  destruct s; cbn; intro H; inversion H; subst; cbn; repeat split; auto; discriminate.
+Qed.
+
+Lemma cancel_task_err : forall tk time e, cancel_task tk time = Err e ->
+  ~ cancellable (t_state (tt_dyn tk)) /\ e = 1.
+Proof.
+  intros [d p te co es rt] time e. destruct d as [s ps rel st co' rem ls ca dl].
+  unfold cancel_task, task_cancel, task_update_remaining_time, task_is_complete, cancellable.
+  cbn [tt_dyn t_state].
+  destruct s; cbn; intro H; inversion H; subst; split; try reflexivity;
+    intros [A|[A|A]]; discriminate.
 Qed.
